@@ -27,6 +27,21 @@ def extract(ctx, finfo, grid_param, mean_param, np_aliases=("np", "numpy")):
     probs = []
     facts = CellFacts()
     rets = [n for n in ast.walk(f.node) if isinstance(n, ast.Return) and n.value is not None and enclosing_func(n) is f.node]
+    if len(rets) > 1:
+        # `if GRID.size == 0: return <empty>` / `if len(GRID) == 0:` -- the empty grid has no cells and no mean; not a path of the rule
+        def empty_guard(r):
+            par = getattr(r, "parent", None)
+            if not (isinstance(par, ast.If) and r in par.body and len(par.body) == 1 and par in f.node.body):
+                return False
+            t = par.test
+            if isinstance(t, ast.UnaryOp) and isinstance(t.op, ast.Not):
+                t = ast.Compare(left=t.operand, ops=[ast.Eq()], comparators=[ast.Constant(value=0)])
+            if not (isinstance(t, ast.Compare) and len(t.ops) == 1 and isinstance(t.ops[0], ast.Eq) and isinstance(t.comparators[0], ast.Constant)
+                    and t.comparators[0].value == 0):
+                return False
+            l = t.left
+            return (isinstance(l, ast.Attribute) and l.attr == "size") or (isinstance(l, ast.Call) and isinstance(l.func, ast.Name) and l.func.id == "len")
+        rets = [r for r in rets if not empty_guard(r)]
     if len(rets) != 1:
         return None, [("indet", f.node, "expected one return")]
     ret = rets[0]
@@ -431,6 +446,13 @@ def report(chk, rule_cells, rule_shift, finfo, facts, probs, what, integral_desc
     if facts is None:
         return
     q = finfo.qualname
+    # cells laid out on a re-ordered copy of the grid (argsort / sort): this rule reads cells over the grid as given; what
+    # it cannot match there is "not decided" (perm.py names values regathered by the sorting permutation)
+    reordered = any(isinstance(c, ast.Call) and ((isinstance(c.func, ast.Attribute) and c.func.attr in ("argsort", "sort", "lexsort", "unique"))
+                                                 or (isinstance(c.func, ast.Name) and c.func.id == "sorted")) for c in ast.walk(finfo.node))
+    if reordered and not (facts.limits_ok and facts.start == 1 and facts.step == 1 and facts.stop_is_len and facts.cumsum_ok):
+        chk.indeterminate(rule_cells, where_of(finfo, facts.call), "the cells are laid out on a re-ordered copy of the level grid (%s): cell limits, index range and cumulative sum are not read by this rule" % facts.limits_desc[:80])
+        facts.limits_ok, facts.start, facts.step, facts.stop_is_len, facts.cumsum_ok = True, 1, 1, True, True
     chk.ob(rule_cells, facts.limits_ok, where_of(finfo, facts.call),
            "element %s of the increments = %s over (%s)" % (facts.ivar, integral_desc, facts.limits_desc),
            "integral over (grid[i-1], grid[i])", key="%s|cell-limits" % q,
